@@ -6,69 +6,32 @@ import (
 	"context"
 	"fmt"
 
-	"github.com/sourcenetwork/immutable"
-
-	"github.com/sourcenetwork/defradb/acp/dac"
-	"github.com/sourcenetwork/defradb/acp/identity"
-	"github.com/sourcenetwork/defradb/crypto"
+	"github.com/sourcenetwork/defradb/client"
 	vnode "github.com/sourcenetwork/defradb/internal/verifharness/node"
-
-	badgerds "github.com/dgraph-io/badger/v4"
-	"github.com/sourcenetwork/corekv/badger"
 )
-
-const policy = `
-name: Verif Policy
-description: A Policy
-actor:
-  name: actor
-resources:
-  users:
-    permissions:
-      read:
-        expr: owner + reader
-      update:
-        expr: owner
-      delete:
-        expr: owner
-    relations:
-      owner:
-        types:
-          - actor
-      reader:
-        types:
-          - actor
-`
 
 func main() {
 	ctx := context.Background()
-	root, _ := badger.NewDatastore("", badgerds.DefaultOptions("").WithInMemory(true).WithLoggingLevel(badgerds.ERROR))
-	acp, _ := dac.NewLocalDocumentACP("")
-	nd, err := vnode.NewOn(ctx, root, immutable.Some(acp))
+	n, err := vnode.NewMem(ctx)
 	if err != nil {
 		panic(err)
 	}
-	defer nd.Close()
-	id, _ := identity.Generate(crypto.KeyTypeSecp256k1)
-	octx := identity.WithContext(ctx, immutable.Some[identity.Identity](id))
-	res, err := nd.DB.AddDACPolicy(octx, policy)
+	defer n.Close()
+	_, err = n.DB.AddSchema(ctx, `type T { name: String
+ onums: [Int]
+ ostrs: [String]
+ nums: [Int!] }`)
 	if err != nil {
 		panic(err)
 	}
-	_, err = nd.DB.AddSchema(ctx, fmt.Sprintf(`type Author @policy(id: "%s", resource: "users") { name: String
- age: Int }`, res.PolicyID))
-	if err != nil {
-		panic(err)
+	col, _ := n.DB.GetCollectionByName(ctx, "T")
+	for _, js := range []string{`{"name": "a", "onums": [1, null, 3]}`, `{"name": "a", "onums": [4, 5, 6]}`, `{"name": "a", "onums": [7]}`, `{"name": "a", "ostrs": ["x", null]}`, `{"name": "a", "ostrs": ["y", "z"]}`, `{"name": "a", "nums": [1, 2]}`, `{"name": "a", "nums": [3, 4]}`} {
+		d, err := client.NewDocFromJSON([]byte(js), col.Definition())
+		if err != nil {
+			fmt.Println(js, "ERR", err)
+			continue
+		}
+		b, _ := d.Bytes()
+		fmt.Printf("%s -> %s bytes=%x create=%v\n", js, d.ID(), b, col.Create(ctx, d))
 	}
-	show := func(what string, c context.Context, q string) {
-		r := nd.DB.ExecRequest(c, q)
-		fmt.Println(what, r.GQL.Data, r.GQL.Errors)
-	}
-	show("owner create", octx, `mutation { create_Author(input: {name: "x", age: 1}) { _docID } }`)
-	show("owner update", octx, `mutation { update_Author(filter: {name: {_eq: "x"}}, input: {age: 2}) { _docID age } }`)
-	show("owner read", octx, `query { Author { name age } }`)
-	show("anonymous read", ctx, `query { Author { name age } }`)
-	show("anonymous create same content", ctx, `mutation { create_Author(input: {name: "x", age: 1}) { _docID age } }`)
-	show("owner read", octx, `query { Author { name age } }`)
-	show("owner commits", octx, `query { commits(fieldName: "_C") { cid height } }`)
 }
